@@ -246,6 +246,22 @@ def impl_call_after_valid(k):
         return "obscure"
 
 
+def impl_call_unreadable(k):
+    """an INVALID call on a Shaper whose graph file does not exist: the call-time checks come first, so the answer is
+    ValueError and not the later, obscurer failure of the extraction (FileNotFoundError)"""
+    from shexer.shaper import Shaper
+    (so, of, fmt, n, d, t) = k
+    sh = Shaper(graph_file_input=os.path.join(D, "no_such_graph.nt"), all_classes_mode=True)
+    try:
+        sh.shex_graph(string_output=so, output_file=os.path.join(D, "out_%d.txt" % os.getpid()) if of else None,
+                      output_format=fmt, acceptance_threshold=t)
+        return "accept"
+    except ValueError:
+        return "ValueError"
+    except BaseException as e:  # noqa
+        return "obscure:" + type(e).__name__
+
+
 def spec_call(k):
     (so, of, fmt, n, d, t) = k
     return (so or of) and fmt in ("ShEx", "Shacl") and 0 <= n <= d
@@ -310,6 +326,14 @@ def run(tier, seed, replay=None):
                       {"call": ccs[i], "history": "shex_graph(string_output=True) then this call", "impl": cimpl2[i],
                        "spec_valid": spec_call(ccs[i])})
     call_corr_fail = [i for i in range(len(ccs)) if cmodel is not None and cmodel[i] != cimpl[i]]
+    for i, k in enumerate(ccs):
+        if not spec_call(k):
+            got = impl_call_unreadable(k)
+            if got != "ValueError":
+                run.violation("an invalid shex_graph call is deferred to a later failure when the graph cannot be read",
+                              {"call": k, "history": "Shaper(graph_file_input=<missing file>, all_classes_mode=True) "
+                                                     "then this call", "impl": got, "spec_valid": False})
+                break
 
     # cross-check a sample of the binary's answers by vm_compute
     vm_n = 0
